@@ -88,7 +88,7 @@ func legalValue(g *RNG, f optField) string {
 			return fmt.Sprint(g.Range(0, 5000))
 		}
 	}
-	if g.Chance(0.4) {
+	if g.Chance(0.7) {
 		// words that mean something somewhere in the framework: status labels, sources, booleans and numbers as text
 		return fmt.Sprintf("%q", pick(g, []string{"reserved", "NA", "NE", "pass", "info", "notice", "warn", "error", "fatal", "Reserved", "ERROR", " warn ",
 			"CABF_BR", "RFC5280", "true", "false", "0", "-1", "", "default"}))
